@@ -248,6 +248,18 @@ def job_wire(a):
         for want_len in range(0, 2 * plen + 4):
             p.sendFrame(opcode=2, payload=pat, payload_len=want_len)
             extra.append((pat * (want_len // plen + 1))[:want_len])
+    # frame API with zero-length frames: first, in the middle and last frame of a message
+    for shape in ((0, 3), (3, 0, 2), (2, 0), (0,), (0, 0)):
+        p.beginMessage(True)
+        for j, fl in enumerate(shape):
+            chunk = bytes((17 * j + k + len(shape)) & 0xFF for k in range(fl))
+            if j % 2:
+                p.sendMessageFrame(chunk)
+            else:
+                p.beginMessageFrame(fl)
+                p.sendMessageFrameData(chunk)
+            extra.append(chunk)
+        p.endMessage()
     p.sendPing(b"pingpayload")
     peer_mask = b"\x09\x08\x07\x06" if role == "server" else None
     ep.feed(F.encode(9, b"answer-me", mask=peer_mask))       # provokes a pong
